@@ -453,6 +453,43 @@ def r01_9(run, model, only_fns=None, rid="R01.9", floor=160):
     run.floor("rebuilt sub-term fields examined", n, floor)
 
 
+def r01_10(run, model):
+    run.rule("R01.10", "a continuation is lowered in the mode of the lowering it belongs to: the Go back end has three sibling lowerings of an "
+                       "ANF term (for effect, assigning to a target, returning); in each of them the rest of a `let` (`body`) and the branches "
+                       "of an if / match are handed to the same function again - a helper shared between the siblings that continues in "
+                       "effect mode loses the value the block was to produce")
+    GO = "crates/compiler/src/go/compile.rs"
+    sib = [f for f in model.fns(GO) if f.body is not None and re.fullmatch(r"compile_aexpr(_\w+)?", f.name) and
+           any("AExpr" in (p["ty"] or "") for p in f.params() if not p["self"])]
+    if len(sib) < 3:
+        raise AnalysisIncomplete(f"sibling lowerings of an ANF term: {len(sib)} found")
+    names = {f.name for f in sib}
+    n = 0
+    for f in sib:
+        for m_ in S.find(f.body, "Match"):
+            for arm in m_["arms"]:
+                pt = S.norm_ws(run.facts.text(GO, arm["pat"]["sp"]))
+                if re.match(r"(anf::)?AExpr::ALet\{", pt):
+                    conts = [b for b in S.pat_bindings(arm["pat"]) if b == "body"]
+                elif re.match(r"(anf::)?CExpr::EIf\{", pt):
+                    conts = [b for b in S.pat_bindings(arm["pat"]) if b in ("then", "else_")]
+                else:
+                    continue
+                for c in S.walk(arm["body"]):
+                    if c["k"] != "Call":
+                        continue
+                    passed = [b for b in conts if any(a["k"] in ("Path", "Unary") and S.idents(a) == {b} for a in c["args"])]
+                    for b in passed:
+                        n += 1
+                        cn = S.callee_name(c)
+                        ok = cn == f.name or (cn == "compile_while" and b == "body")
+                        run.ob("R01.10", f"{f.name}|`{b}` of {pt.split('{')[0].split('::')[-1]} continues in the same mode", ok, site(GO, c["sp"]),
+                               f"`{b}` is handed to {cn}",
+                               witness="fn notify(..) -> int32 { go || {..}; let d = base * 2; d + 1 }: the rest of the block after `go` is lowered for "
+                                       "effect only, the function returns the zero value of its result variable")
+    run.floor("continuations handed on by the sibling lowerings", n, 12)
+
+
 def run(run, model):
     run.try_rule(r01_6, model)
     trs = P.discover(model, include_pprint=True)
@@ -461,6 +498,10 @@ def run(run, model):
     run.try_rule(r01_3, model, trs)
     run.try_rule(r01_4, model, trs)
     run.try_rule(r01_9, model)
+    run.try_rule(r01_10, model)
+    # which binder a name denotes is part of what the program means (shared with C05 R05.2)
+    from rules import c05 as _c05
+    run.try_rule(_c05.r05_2, model)
     run.try_rule(r01_1, model)
     run.try_rule(r01_5, model)
     from rules import c11
